@@ -447,3 +447,6 @@ func envConn(fragMode int) *env.ConnOpts {
 // etagEq compares ETags as values; the statements speak of the MD5, not of
 // the quoting of the header.
 func etagEq(a, b string) bool { return strings.Trim(a, "\"") == strings.Trim(b, "\"") }
+
+func osMkdirAll(p string)            { os.MkdirAll(p, 0o755) }
+func osWriteFile(p string, b []byte) { os.WriteFile(p, b, 0o644) }
